@@ -100,6 +100,14 @@ def main(tier: str, only=None) -> int:
         mods.insert(0, "vp.harness.c14_order")
     else:
         run.coverage["order_obligations"] = "skipped: the recorded finding (set order in converter) is live; witness replayed with real PYTHONHASHSEED values"
+    # (a) second group: rewriter / constant folder / version converter under the order cut
+    mods.append("vp.harness.c14_order_rw")
+    try:
+        from vp.harness import c14_order_rw as HRW
+        run.coverage["order_sites"].update({m.rsplit(".", 1)[-1]: len(i["order_sites"]) for m, i in HRW.INFO.items()})
+        run.coverage["order_sites_hit_under_identity_schedule"] = {f"{n}.m{k}": v for (n, k), v in HRW.SITES.items()}
+    except Exception as e:  # noqa: BLE001
+        run.harness_error(f"c14_order_rw failed to load: {e!r}")
     # (d) fresh-process baselines for the history harness (computed before any history runs; workers read the file)
     import json
     from vp.harness import c14_history as HH
